@@ -9,6 +9,7 @@ fn meta_for(check: &str, tier: Tier) -> Option<CheckMeta> {
         "C05" => qv::c05::meta(tier),
         "C06" => qv::c06::meta(tier),
         "C07" => qv::c07::meta(tier),
+        "C08" => qv::c08::meta(tier),
         "C09" => qv::c09::meta(tier),
         "C10" => qv::c10::meta(tier),
         #[cfg(any(feature = "rocksdb", feature = "fjall"))]
@@ -31,6 +32,7 @@ fn worker_for(ctx: &WorkerCtx) -> Report {
         "C05" => qv::c05::worker(ctx),
         "C06" => qv::c06::worker(ctx),
         "C07" => qv::c07::worker(ctx),
+        "C08" => qv::c08::worker(ctx),
         "C09" => qv::c09::worker(ctx),
         "C10" => qv::c10::worker(ctx),
         #[cfg(any(feature = "rocksdb", feature = "fjall"))]
@@ -99,6 +101,29 @@ fn main() {
         }
         "hash-child" => qv::c13::hash_child(args[2].parse().unwrap()),
         "typeid-child" => qv::c14::typeid_child(),
+        "kill-child" => qv::c08::kill_child(&args[2..]),
+        "probe-bp" => {
+            use qv::eng::*;
+            use qv::model::*;
+            let mut p = Program::default();
+            p.nodes.insert(nid(Kind::F, 0), NodeSpec { ops: vec![Op::Read(nid(Kind::In, 0))], combine: Combine::SumPlus(10) });
+            p.nodes.insert(nid(Kind::P, 0), NodeSpec { ops: vec![Op::Read(nid(Kind::F, 0))], combine: Combine::SumPlus(100) });
+            p.nodes.insert(nid(Kind::N, 1), NodeSpec { ops: vec![Op::Read(nid(Kind::P, 0))], combine: Combine::SumPlus(1000) });
+            let h = vec![
+                Step::Session { cells: vec![], writes: vec![Write::Set(0, 1), Write::Set(1, 1)], commit: true },
+                Step::Query { roots: vec![nid(Kind::N, 1)], mode: QMode::Seq },
+                Step::Session { cells: vec![], writes: vec![Write::Set(0, 2)], commit: true },
+                Step::Query { roots: vec![nid(Kind::F, 0)], mode: QMode::Seq },
+                Step::Session { cells: vec![], writes: vec![Write::Set(1, 5)], commit: true },
+                Step::Query { roots: vec![nid(Kind::N, 1)], mode: QMode::Seq },
+            ];
+            let rt = tokio::runtime::Builder::new_current_thread().enable_all().build().unwrap();
+            let out = rt.block_on(run_sequential(&MemBackend, std::sync::Arc::new(p), &h, qbice::engine::YieldFrequency::Never, 0, None));
+            for v in &out.oracle.violations {
+                println!("{} {} {}", v.0, v.1, v.2.render());
+            }
+            println!("violations: {}", out.oracle.violations.len());
+        }
         _ => {
             eprintln!("usage: qv run <Cxx> [--tier quick|thorough] [--seed N] [--replay F]");
             std::process::exit(2);
